@@ -1,6 +1,7 @@
 package hsx
 
 import (
+	"bytes"
 	"crypto/rand"
 	"time"
 
@@ -63,6 +64,30 @@ func (p *PKI) Issue(label, name string) *Ident {
 	return &Ident{Label: label, Key: k, Leaf: leaf, Inter: p.Inter, KEM: must(keys.GenerateKEMKeyPair(rand.Reader)), HoldsKey: true}
 }
 
+// IssueNamed: an identity under the trusted hierarchy whose leaf carries exactly these names.
+func (p *PKI) IssueNamed(label string, names ...certs.Name) *Ident {
+	k := keys.GenerateNewX25519KeyPair()
+	leaf := must(certs.IssueLeaf(p.Inter, &certs.Identity{PublicKey: k.Public, Names: names}))
+	return &Ident{Label: label, Key: k, Leaf: leaf, Inter: p.Inter, KEM: must(keys.GenerateKEMKeyPair(rand.Reader)), HoldsKey: true}
+}
+
+// specNameOK: does the leaf carry the expected name? Written from the certificate format (an
+// identifier is a type and a label; both must agree, byte for byte), not from Certificate.MatchesName.
+func specNameOK(leaf *certs.Certificate, name certs.Name) bool {
+	if len(name.Label) == 0 && name.Type == 0 {
+		return true // no name expected
+	}
+	if leaf.Type != certs.Leaf {
+		return false
+	}
+	for _, b := range leaf.IDChunk.Blocks {
+		if b.Type == name.Type && bytes.Equal(b.Label, name.Label) {
+			return true
+		}
+	}
+	return false
+}
+
 // The bad identities of the property text. victim is an honest identity for the expected name.
 func (p *PKI) OtherKey(victim *Ident) *Ident { // valid certificate, but the party holds another key
 	return &Ident{Label: "valid-cert-other-key", Key: keys.GenerateNewX25519KeyPair(), Leaf: victim.Leaf, Inter: victim.Inter, KEM: victim.KEM}
@@ -99,10 +124,17 @@ var Policies = []string{PolStore, PolAuthKeys, PolBoth, PolSkip}
 // Verify builds a VerifyConfig for a policy. authorized lists the keys in the authorized set.
 // expired shifts the verifier's clock past the leaf validity (one week).
 func (p *PKI) Verify(policy, name string, authorized []*Ident, expired bool) *transport.VerifyConfig {
-	v := &transport.VerifyConfig{}
+	var n certs.Name
 	if name != "" {
-		v.Name = certs.RawStringName(name)
+		n = certs.RawStringName(name)
 	}
+	return p.VerifyName(policy, n, authorized, expired)
+}
+
+// VerifyName: as Verify, for an expected name of any type.
+func (p *PKI) VerifyName(policy string, name certs.Name, authorized []*Ident, expired bool) *transport.VerifyConfig {
+	v := &transport.VerifyConfig{}
+	v.Name = name
 	switch policy {
 	case PolStore:
 		v.Store = p.Store()
@@ -133,8 +165,16 @@ func (p *PKI) Verify(policy, name string, authorized []*Ident, expired bool) *tr
 //   both:     either
 //   skip:     any well-formed certificate
 func (p *PKI) SpecAccepts(policy, name string, id *Ident, authorized []*Ident, expired bool) bool {
+	var n certs.Name
+	if name != "" {
+		n = certs.RawStringName(name)
+	}
+	return p.SpecAcceptsName(policy, n, id, authorized, expired)
+}
+
+func (p *PKI) SpecAcceptsName(policy string, name certs.Name, id *Ident, authorized []*Ident, expired bool) bool {
 	isLeaf := id.Leaf.Type == certs.Leaf
-	nameOK := name == "" || id.Leaf.MatchesName(certs.RawStringName(name))
+	nameOK := specNameOK(id.Leaf, name)
 	chains := isLeaf && id.Inter != nil && id.Inter == p.Inter && id.Leaf.Parent == p.Inter.Fingerprint
 	storeOK := chains && nameOK && !expired
 	inSet := false
